@@ -226,6 +226,7 @@ Jne = make_cjump("jne", 0x85)
 Jbe = make_cjump("jbe", 0x86)
 Ja = make_cjump("ja", 0x87)
 Js = make_cjump("js", 0x88)
+Jp = make_cjump("jp", 0x8A)  # pf=1
 
 Jl = make_cjump("jl", 0x8C)
 Jge = make_cjump("jge", 0x8D)
